@@ -94,6 +94,9 @@ theories/Props/C04.vos theories/Props/C04.vok theories/Props/C04.required_vos: t
 theories/Props/C05.vo theories/Props/C05.glob theories/Props/C05.v.beautified theories/Props/C05.required_vo: theories/Props/C05.v theories/Base/Prelude.vo theories/Base/Bytes.vo theories/Event/Merge.vo theories/Event/Merge_proofs.vo theories/Event/Merge_order_proofs.vo
 theories/Props/C05.vio: theories/Props/C05.v theories/Base/Prelude.vio theories/Base/Bytes.vio theories/Event/Merge.vio theories/Event/Merge_proofs.vio theories/Event/Merge_order_proofs.vio
 theories/Props/C05.vos theories/Props/C05.vok theories/Props/C05.required_vos: theories/Props/C05.v theories/Base/Prelude.vos theories/Base/Bytes.vos theories/Event/Merge.vos theories/Event/Merge_proofs.vos theories/Event/Merge_order_proofs.vos
+theories/Props/C06.vo theories/Props/C06.glob theories/Props/C06.v.beautified theories/Props/C06.required_vo: theories/Props/C06.v theories/Base/Prelude.vo theories/Parse/Chunk.vo theories/Parse/Chunk_proofs.vo
+theories/Props/C06.vio: theories/Props/C06.v theories/Base/Prelude.vio theories/Parse/Chunk.vio theories/Parse/Chunk_proofs.vio
+theories/Props/C06.vos theories/Props/C06.vok theories/Props/C06.required_vos: theories/Props/C06.v theories/Base/Prelude.vos theories/Parse/Chunk.vos theories/Parse/Chunk_proofs.vos
 theories/Props/C07.vo theories/Props/C07.glob theories/Props/C07.v.beautified theories/Props/C07.required_vo: theories/Props/C07.v theories/Base/Prelude.vo theories/Base/Bytes.vo theories/Event/Repr.vo theories/Event/Repr_proofs.vo
 theories/Props/C07.vio: theories/Props/C07.v theories/Base/Prelude.vio theories/Base/Bytes.vio theories/Event/Repr.vio theories/Event/Repr_proofs.vio
 theories/Props/C07.vos theories/Props/C07.vok theories/Props/C07.required_vos: theories/Props/C07.v theories/Base/Prelude.vos theories/Base/Bytes.vos theories/Event/Repr.vos theories/Event/Repr_proofs.vos
@@ -109,6 +112,12 @@ theories/Props/C12.vos theories/Props/C12.vok theories/Props/C12.required_vos: t
 theories/Props/C14.vo theories/Props/C14.glob theories/Props/C14.v.beautified theories/Props/C14.required_vo: theories/Props/C14.v theories/Base/Prelude.vo theories/Parse/Dispatch.vo theories/Parse/Dispatch_proofs.vo
 theories/Props/C14.vio: theories/Props/C14.v theories/Base/Prelude.vio theories/Parse/Dispatch.vio theories/Parse/Dispatch_proofs.vio
 theories/Props/C14.vos theories/Props/C14.vok theories/Props/C14.required_vos: theories/Props/C14.v theories/Base/Prelude.vos theories/Parse/Dispatch.vos theories/Parse/Dispatch_proofs.vos
+theories/Parse/Chunk.vo theories/Parse/Chunk.glob theories/Parse/Chunk.v.beautified theories/Parse/Chunk.required_vo: theories/Parse/Chunk.v theories/Base/Prelude.vo
+theories/Parse/Chunk.vio: theories/Parse/Chunk.v theories/Base/Prelude.vio
+theories/Parse/Chunk.vos theories/Parse/Chunk.vok theories/Parse/Chunk.required_vos: theories/Parse/Chunk.v theories/Base/Prelude.vos
+theories/Parse/Chunk_proofs.vo theories/Parse/Chunk_proofs.glob theories/Parse/Chunk_proofs.v.beautified theories/Parse/Chunk_proofs.required_vo: theories/Parse/Chunk_proofs.v theories/Base/Prelude.vo theories/Parse/Chunk.vo
+theories/Parse/Chunk_proofs.vio: theories/Parse/Chunk_proofs.v theories/Base/Prelude.vio theories/Parse/Chunk.vio
+theories/Parse/Chunk_proofs.vos theories/Parse/Chunk_proofs.vok theories/Parse/Chunk_proofs.required_vos: theories/Parse/Chunk_proofs.v theories/Base/Prelude.vos theories/Parse/Chunk.vos
 theories/Parse/Tree.vo theories/Parse/Tree.glob theories/Parse/Tree.v.beautified theories/Parse/Tree.required_vo: theories/Parse/Tree.v theories/Base/Prelude.vo
 theories/Parse/Tree.vio: theories/Parse/Tree.v theories/Base/Prelude.vio
 theories/Parse/Tree.vos theories/Parse/Tree.vok theories/Parse/Tree.required_vos: theories/Parse/Tree.v theories/Base/Prelude.vos
